@@ -112,6 +112,7 @@ class Leg:
     rule: str = ""
     exhaustive: bool = False
     machine: Optional[Callable] = None  # machine(tier, holder) -> RuleBasedStateMachine subclass (stateful legs)
+    fuzz_of: Optional[str] = None  # coverage-guided leg (atheris): name of the leg whose strategy and check are driven
     # exceptions a check body may leak that are harness bugs rather than findings are NOT special-cased:
     # every exception escaping check() is a failure with clause "exception:<Type>@<frame>".
 
@@ -266,6 +267,9 @@ def run_leg_shard(prop: Prop, leg: Leg, tier: str, seed: int, shard: int, nshard
                 if new:
                     stats.failures.append({"leg": leg.name, "spec": spec, "clauses": new, "origin": "enumerated"})
                     suppressed.update(c for c, _ in new)
+        if leg.fuzz_of is not None:
+            n = n_override or (leg.n_quick if tier == "quick" else leg.n_thorough)
+            return _run_fuzz(prop, leg, tier, seed * 1000 + shard, n, t0)
         if leg.strategy is not None:
             n = n_override or (leg.n_quick if tier == "quick" else leg.n_thorough)
             _run_hypothesis(prop, leg, tier, seed * 1000 + shard, n, stats, known)
@@ -276,6 +280,40 @@ def run_leg_shard(prop: Prop, leg: Leg, tier: str, seed: int, shard: int, nshard
         stats.errors.append("harness error in leg %s shard %d: %s\n%s" % (leg.name, shard, repr(e), traceback.format_exc()[-1500:]))
     stats.wall = time.time() - t0
     return stats.to_dict()
+
+
+def _run_fuzz(prop, leg, tier, seed, runs, t0):
+    """coverage-guided leg: a separate interpreter (atheris instruments `inscripta` at import time) runs harness.fuzzdrv"""
+    import subprocess
+    import tempfile
+    try:
+        import atheris  # noqa: F401
+    except ImportError:
+        st_ = Stats()
+        st_.labels["atheris_unavailable"] += 1
+        st_.wall = time.time() - t0
+        return st_.to_dict()
+    fd, out = tempfile.mkstemp(prefix="bcfuzz.", suffix=".json")
+    os.close(fd)
+    env = dict(os.environ, PYTHONPATH=os.pathsep.join([VERIF_DIR, REPO_DIR, os.path.join(VERIF_DIR, ".deps")]))
+    r = subprocess.run([sys.executable, "-W", "ignore", "-m", "harness.fuzzdrv", prop.pid, leg.name, tier, str(seed), str(runs), out],
+                       cwd=VERIF_DIR, env=env, capture_output=True, text=True)
+    try:
+        d = json.load(open(out))
+    except Exception:
+        d = Stats().to_dict()
+        d["errors"] = ["fuzz driver produced no statistics (exit %s): %s" % (r.returncode, (r.stderr or r.stdout)[-800:])]
+    finally:
+        try:
+            os.remove(out)
+        except OSError:
+            pass
+    if r.returncode not in (0,) and not d.get("errors") and not d.get("failures"):
+        # libFuzzer reports an uncaught exception of the target as a crash; evaluate() catches everything, so this is a harness error
+        d.setdefault("errors", []).append("fuzz driver exit %s: %s" % (r.returncode, (r.stderr or "")[-800:]))
+    d["labels"] = dict(d.get("labels", {}), coverage_guided=d.get("evaluations", 0))
+    d["wall"] = time.time() - t0
+    return d
 
 
 def _run_hypothesis(prop, leg, tier, seed, n, stats, known):
